@@ -411,7 +411,7 @@ def runOp (d : DSt) (ts : List String) : DSt × String :=
     | ["flush"] =>
       match flush (mkBeh d.behs d.shifts) st with
       | .ub w => fail d w
-      | .ok (st, evs) => finishOk d st 0 (some evs) true
+      | .ok (st, shots) => finishOk d st 0 (some (shots.map Shot.ev)) true
     | ["resize", lines, cols] =>
       match ints? [lines, cols] with
       | some [l, c] =>
